@@ -72,7 +72,8 @@ def render (s : St) (es : List Ev) : String :=
   let cbs := es.filterMap (fun e => match e with | .cb k => some (kindName k) | _ => none)
   let ws := es.filterMap (fun e => match e with | .wr w => some (wName w) | _ => none)
   let b (x : Bool) : String := if x then "1" else "0"
-  s!"rd={joinOrDash rds} cb={joinOrDash cbs} w={joinOrDash ws} pver={s.pver} vk={b s.versionKnown} va={b s.verAck}"
+  let ack := match ackPver s with | some p => toString p | none => "-"
+  s!"rd={joinOrDash rds} cb={joinOrDash cbs} w={joinOrDash ws} pver={s.pver} vk={b s.versionKnown} va={b s.verAck} ack={ack} wh={b (wantsHeaders es)} wa={b (wantsAddrV2 es)} wit={b (witnessEnabled s es)}"
 
 def parseNats? (s : String) : Option (List Nat) :=
   if s == "-" then some [] else (s.splitOn ",").mapM (fun (x : String) => x.toNat?)
@@ -98,8 +99,23 @@ def handleTrace : List String → String
     | _, _, _, _, _, _, _, _ => "bad-op"
   | _ => "bad-op"
 
+def handleHs : List String → String
+  | [dir, ours, allowSelf, net, host, rejVer, toks] =>
+    match (if dir == "in" then some true else if dir == "out" then some false else none),
+          ours.toNat?, parseBool? allowSelf,
+          (if net == "reg" then some true else if net == "main" then some false else none),
+          (if host == "local" then some true else if host == "remote" then some false else none),
+          parseBool? rejVer, parseToks? toks with
+    | some inbound, some ours, some as, some reg, some loc, some rv, some ts =>
+      if ours = 0 ∨ ours ≥ 2^32 then "bad-op" else
+      let (s, es) := run ⟨inbound, ours, as, reg && loc, rv⟩ ts
+      render s es
+    | _, _, _, _, _, _, _ => "bad-op"
+  | _ => "bad-op"
+
 def handle : List String → String
   | "trace" :: rest => handleTrace rest
+  | ["par", subs] => "|".intercalate ((subs.splitOn "|").map (fun sub => handleHs (sub.splitOn ";")))
   | ["prestart", dir, n, mode] =>
     match n.toNat? with
     | some n =>
